@@ -93,7 +93,16 @@ int vp_case(Choice& c, Report& rep) {
     unsigned char pkt[4000];
     int modes[3] = {0, 0, 0};
     HeapBuf<opus_int16> in16((size_t)fs * ch); HeapBuf<opus_int32> in24((size_t)fs * ch);
+    // class "bandwidth narrows and widens again mid-stream" (hash-derived switch; both codecs receive the same requests): state of bands that
+    // drop out of the coded range and come back
+    const uint64_t gh = fnv1a(c.d, c.n);
+    const bool bw_schedule = (gh % 5) == 2 && Fs >= 24000;
+    const int bw_wide = Fs >= 48000 ? OPUS_BANDWIDTH_FULLBAND : OPUS_BANDWIDTH_SUPERWIDEBAND;
+    const int bw_narrow = ((gh >> 8) & 1) ? OPUS_BANDWIDTH_WIDEBAND : OPUS_BANDWIDTH_NARROWBAND;
+    if (bw_schedule) { BOTH(OPUS_SET_BANDWIDTH(bw_wide)); rep.label("class:bandwidth-schedule"); }
     for (int f = 0; f < nframes; f++) {
+      if (bw_schedule && f == nframes / 3) BOTH(OPUS_SET_BANDWIDTH(bw_narrow));
+      if (bw_schedule && f == 2 * nframes / 3) BOTH(OPUS_SET_BANDWIDTH(bw_wide));
       const float* src = x.data() + (size_t)f * fs * ch;
       int n, nr;
       if (fmt == 0) {
@@ -178,6 +187,26 @@ int vp_case(Choice& c, Report& rep) {
         if (std::fabs(br[b] - bi[b]) <= 3.0) VP_REQUIRE(std::fabs(bo[b] - bi[b]) <= 9.0, "c04:band-energy", "channel %d band %d: output energy %.1f dB vs input %.1f dB", k, b, bo[b], bi[b]);
       }
       rep.label("band-energy-checked");
+      // the same relative clause on 250 ms segments (a transient anomaly, e.g. a burst in a band that re-enters the coded range, is averaged
+      // away over the whole stream); bands are referred to the frozen codec's output energy in the segment: a band the frozen codec leaves
+      // empty is compared against the segment's loudest band - 40 dB floor
+      if (family != sig::CLICKS) {
+        int seg = Fs / 4;
+        for (int s0 = skip; s0 + seg + look + 8 <= total; s0 += seg) {
+          double so[21], sr[21];
+          am_band_energy_db(y.data() + (size_t)(s0 + look) * ch + k, seg, ch, Fs, 0, so);
+          am_band_energy_db(yr.data() + (size_t)(s0 + rlook) * ch + k, seg, ch, Fs, 0, sr);
+          double smx = -1e9; for (int b = 0; b < 21; b++) if (sr[b] > smx) smx = sr[b];
+          for (int b = 0; b < 21; b++) {
+            static const int BE2[22] = {0, 2, 4, 6, 8, 10, 12, 14, 16, 20, 24, 28, 32, 40, 48, 56, 68, 80, 96, 120, 156, 200};
+            if (BE2[b + 1] * 100 > Fs / 2) continue;
+            double ref = sr[b] > smx - 40 ? sr[b] : smx - 40;     // floor for bands the frozen codec leaves (nearly) empty
+            { char bc[96]; snprintf(bc, sizeof bc, "segband/%s", sig::FAMILY_NAME[family]); calib_log(bc, so[b] - ref, sr[b] - smx); }
+            VP_REQUIRE(so[b] - ref <= 10.0, "c04:segment-band-energy-vs-frozen", "channel %d band %d, segment at %d ms: output energy %.1f dB, frozen codec %.1f dB (loudest band of the segment %.1f dB)", k, b, s0 * 1000 / Fs, so[b], sr[b], smx);
+          }
+        }
+        rep.label("segment-band-energy-checked");
+      }
     }
     if (ch == 2 && family == sig::TONE_PAIR) {
       // left carries 440 Hz, right 1000 Hz: each output channel must match its own input channel
